@@ -137,11 +137,20 @@ def attach_groups(w, acl):
     walk(acl.items)
 
 
+X24 = ("w", "X", "0.0.0.255")
+
+
 def reader_groups(w):
     return {name: w.group_members(name) for name in w.groups}
 
 
-X24 = ("w", "X", "0.0.0.255")
+CONV_TEMPLATES = {
+    # multi-port eq entries (split into adjacent single-port entries on NX-OS)
+    "multi": [A("permit", "tcp", src=X24, dport=("eq", ["p", "q"])), R("note"), A("deny", "tcp", dport=("eq", ["q"])),
+              A("permit", "udp", sport=("eq", ["p", "p2"]), dst=("h", "Y")), A("deny", "ip")],
+    # address groups inside blocks made by group_by
+    "grouped-ag": [R("= g1"), A("permit", src=X24), A("permit", src=("g", "G1")), R("= g2"), A("deny", src=("g", "G2")), A("deny", "ip")],
+}
 TEMPLATES = {
     # nested / duplicate / disjoint addresses
     "nest": [A("permit", src=X24), A("permit", src=("h", "Xh")), A("deny", src=("h", "Y")), A("permit", src=("h", "Xh")),
